@@ -11,6 +11,11 @@ for k in sorted(os.listdir(src)):
         continue
     meta = json.load(open(os.path.join(d, "meta.json")))
     pid = meta["property"]
+    # next free number for this property (later rounds continue the numbering)
+    n = 1
+    while os.path.exists(os.path.join(VERIF, "seeded", f"{pid}-{n}")):
+        n += 1
+    k = str(n)
     dst = os.path.join(VERIF, "seeded", f"{pid}-{k}")
     os.makedirs(dst, exist_ok=True)
     for f in os.listdir(d):
@@ -18,7 +23,8 @@ for k in sorted(os.listdir(src)):
     m = re.search(r"-run[ =]'?\"?([A-Za-z0-9_|^$]+)", meta.get("demo_cmd", ""))
     demo = [f for f in os.listdir(d) if f.endswith("_test.go")]
     meta["demo_file"] = demo[0] if demo else "demo_test.go"
-    meta["demo_run"] = f"go test -mod=mod -vet=off -count=1 -run '{m.group(1) if m else 'Test'}' ."
+    go = "go1.26.8" if "go1.26.8" in meta.get("demo_cmd", "") or "synctest" in open(os.path.join(d, meta["demo_file"])).read() else "go"
+    meta["demo_run"] = f"{go} test -mod=mod -vet=off -count=1 -run '{m.group(1) if m else 'Test'}' ."
     json.dump(meta, open(os.path.join(dst, "meta.json"), "w"), indent=1)
     v = subprocess.run([sys.executable, os.path.join(VERIF, "tools/seedtest.py"), "verify", dst], capture_output=True, text=True)
     try:
